@@ -330,6 +330,11 @@ def T14():
             Cfg("D_C6", B, "c6", depends=["IDF_TARGET_ESP32C6 || USR"]),
             Cfg("FORCER", B, "forcer", depends=["USR"], selects=[("FORCED", None)]),
             Cfg("FORCED", B, "forced", depends=["!IDF_TARGET_ESP32C6"]),
+            Cfg("GATE", B, "gate"),
+            Cfg("EXTRA", B, "extra"),
+            Cfg("SRC2", B, "src2", selects=[("TGT2", "GATE && EXTRA")], sets=[("TGTI", "5", "GATE")]),
+            Cfg("TGT2", B, "tgt2", depends=["GATE"]),
+            Cfg("TGTI", I, "tgti", depends=["GATE"], defaults=[("1", None)]),
             Menu("c6 extras", visible_if=["IDF_TARGET_ESP32C6"], children=[Cfg("SHARED", B, "shared (c6 menu)"), Cfg("ONLY_C6", B, "only c6")]),
             Menu("common", children=[Cfg("SHARED", B, "shared (common menu)", extra=["# ignore: multiple-definition"]), Cfg("USES_SHARED", B, "uses shared", depends=["SHARED"])]),
             Menu("common2", children=[Cfg("SHARED2", B, "shared2 (common menu)"), Cfg("USES_SHARED2", I, "uses shared2", depends=["SHARED2"], defaults=[("1", None)])]),
